@@ -670,6 +670,33 @@ def r20_inline(src, log, inline_map):
 
 
 
+def r21_streq(src, log):
+    """`E == "lit"` (string comparison against a literal, e.g. Cow<str> == &str) -> `str_eq(&(E), "lit")`"""
+    toks = lex(src); m = match_brackets(toks); s = sig(toks)
+    edits = []
+    for k, i in enumerate(s):
+        t0 = toks[i]
+        if t0.kind == "str" and t0.text.startswith('"') and k >= 3 and toks[s[k - 1]].text == "=" and toks[s[k - 2]].text == "=" \
+                and toks[s[k - 3]].text not in "=!<>":
+            j = k - 3
+            while j >= 0:
+                tj = toks[s[j]]
+                if tj.text in ")]}":
+                    j = s.index(m[s[j]]) - 1
+                    continue
+                if tj.text in "({[;,|" or (tj.text == "&" and toks[s[j - 1]].text == "&") or \
+                        (tj.kind == "ident" and tj.text in ("if", "return", "let", "match")) or \
+                        (tj.text == ">" and toks[s[j - 1]].text == "=") or (tj.text == "=" and toks[s[j - 1]].text not in "=!<>"):
+                    break
+                j -= 1
+            a = toks[s[j + 1]].start
+            lhs = src[a:toks[s[k - 2]].start].strip()
+            edits.append((a, t0.end, "str_eq(&(%s), %s)" % (lhs, t0.text)))
+    log["R21"] = log.get("R21", 0) + len(edits)
+    return _replace(src, edits)
+
+
+
 def r11_bytelits(src, log, table):
     """b"lit" -> blit_<n>()  ; table collects the generated external_body functions.
     `E == b"lit"` (slice equality against a literal) -> `bytes_eq(E, blit_<n>())`, where the shim
@@ -835,7 +862,7 @@ def r7_combinators(src, log):
     raise ExtractError("R7 is applied through r7_apply")
 
 
-def r7_apply(src, log, map_kind="result"):
+def r7_apply(src, log, map_kind="result", path_map_kind="result"):
     changed = True
     guard = 0
     while changed:
@@ -889,6 +916,28 @@ def r7_apply(src, log, map_kind="result"):
                 arg_a, arg_b = toks[o].end, toks[c].start
                 arg = src[arg_a:arg_b].strip()
                 is_closure = arg.startswith("|")
+                if meth == "map" and not is_closure and re.fullmatch(r"[A-Za-z_][\w:]*", arg) and path_map_kind == "result":
+                    # Result::map(path)
+                    j = k - 1
+                    while j >= 0:
+                        tj = toks[s[j]]
+                        if tj.text == "}" and toks[s[j + 1]].text not in (".", "?"):
+                            break
+                        if tj.text in ")]}":
+                            j = s.index(m[s[j]]) - 1
+                            continue
+                        if tj.text in "({[;," or tj.text == "=" or (tj.text == ">" and toks[s[j - 1]].text == "=") or \
+                                (tj.text == ":" and toks[s[j - 1]].text != ":" and toks[s[j + 1]].text != ":") or \
+                                (tj.kind == "ident" and tj.text in ("return", "break", "in", "let", "match", "if")):
+                            break
+                        j -= 1
+                    r0 = j + 1
+                    recv = src[toks[s[r0]].start:t.start].strip()
+                    src = _replace(src, [(toks[s[r0]].start, toks[c].end, "(match %s { Ok(v__) => Ok(%s(v__)), Err(e__) => Err(e__) })" % (recv, arg))])
+                    log["R7"] = log.get("R7", 0) + 1
+                    log.setdefault("R7.fired", []).append("map(path)")
+                    changed = True
+                    break
                 if meth not in ("ok_or", "then_some") and not is_closure:
                     continue
                 # receiver start: walk back to statement/expr boundary at same depth
@@ -980,6 +1029,7 @@ def r7_apply(src, log, map_kind="result"):
 
 
 RULES = {
+    "R21": r21_streq,
     "R17": r17_underscore_assign,
     "R18": r18_try_for_each,
     "R1": r1_attrs, "R2": r2_logs, "R3": r3_await, "R4": r4_select, "R5": r5_break, "R6": r6_index,
@@ -1156,9 +1206,10 @@ def process_template(tpl_path: str, repo: str, variant: dict | None = None) -> U
                 if spec:
                     # the accessor's (trusted, generated) contract is justified by the Verus-checked lemma emitted next to it
                     idfn = res.bytelit_map.get("idfn", "name_id")
-                    out.append(GenLine("pub fn %s() -> (r: &'static [u8]) ensures %s(r@) == %s { %s }" % (nm, idfn, spec, lit), ("gen", "bytelit")))
-                    out.append(GenLine("pub proof fn %s_matches_spec() ensures %s(%s) == %s { reveal(%s); }"
-                                       % (nm, idfn, seqtxt, spec, idfn), ("tpl", 0, "bytelit.%s.code_literal_is_%s" % (nm, spec), "contract")))
+                    out.append(GenLine("pub fn %s() -> (r: &'static [u8]) ensures %s(r@) == %s, forall|s__: Seq<u8>| #[trigger] %s(s__) == %s ==> s__ == r@ { %s }"
+                                       % (nm, idfn, spec, idfn, spec, lit), ("gen", "bytelit")))
+                    out.append(GenLine("pub proof fn %s_matches_spec() ensures %s(%s) == %s, forall|s__: Seq<u8>| #[trigger] %s(s__) == %s ==> s__ =~= %s { reveal(%s); }"
+                                       % (nm, idfn, seqtxt, spec, idfn, spec, seqtxt, idfn), ("tpl", 0, "bytelit.%s.code_literal_is_%s" % (nm, spec), "contract")))
                 else:
                     out.append(GenLine("pub fn %s() -> (r: &'static [u8]) ensures r@ == %s { %s }" % (nm, seqtxt, lit), ("gen", "bytelit")))
         else:
@@ -1251,7 +1302,7 @@ def _gen_function(kv, sections, repo, res: UnitResult, variant) -> list:
         body = r20_inline(body, log, variant["inline"])
     for r in rules:
         if r == "R7":
-            body = r7_apply(body, log, kv.get("r7map", "result"))
+            body = r7_apply(body, log, kv.get("r7map", "result"), kv.get("r7pathmap", "result"))
         elif r == "R11":
             body = r11_bytelits(body, log, res.bytelits)
         elif r in ("R13", "R16"):
